@@ -14,6 +14,8 @@
 import WS.Driver.Util
 import WS.Model.App
 import WS.Spec.AppTrace
+import WS.Model.Keepalive
+import WS.Spec.KeepaliveSpec
 namespace WS.Driver.App
 open WS WS.Driver WS.Model.App
 
@@ -191,6 +193,32 @@ def ops : List String → Option String
       | none, _, _ => some "bad-cfg"
       | _, none, _ => some "bad-runs"
       | _, _, none => some "bad-sched"
+  | ["m-keepalive", iv, to, hz, fuel, arr, sched] =>
+    -- arr = `-` or items `<dt>.<q|d>` joined by `+` (gaps in ticks; q = pong, d = data)
+    let items : Option (List (Nat × Model.Keepalive.Kind)) :=
+      if arr == "-" then some [] else
+      (arr.splitOn "+").mapM fun it => match it.splitOn "." with
+        | [d, k] => match d.toNat? with
+          | some d => if k == "q" then some (d, .pong) else if k == "d" then some (d, .data) else none
+          | none => none
+        | _ => none
+    match iv.toNat?, to.toNat?, hz.toNat?, fuel.toNat?, items, parseSched sched with
+    | some iv, some to, some hz, some fuel, some items, some sc =>
+      let (pings, rep) := Model.Keepalive.run iv to hz fuel (Model.Keepalive.absolute 0 items) sc
+      some (s!"pings={",".intercalate (pings.map toString)};report=" ++ (match rep with | some r => toString r | none => "N"))
+    | _, _, _, _, _, _ => some "bad-keepalive"
+  | ["s-keepalive", iv, to, hz, pings, pongs, rep] =>
+    let nums (x : String) : Option (List Nat) := if x == "-" then some [] else (x.splitOn ",").mapM (·.toNat?)
+    match iv.toNat?, to.toNat?, hz.toNat?, nums pings, nums pongs with
+    | some iv, some to, some hz, some pi, some po =>
+      let r : Option Nat := if rep == "N" then none else rep.toNat?
+      let v := Spec.Keepalive.check iv to pi po r hz
+      some (if v.isEmpty then "ok" else " ".intercalate v)
+    | _, _, _, _, _ => some "bad-keepalive"
+  | ["s-keepalive-args", iv, to] =>
+    match iv.toInt?, parseOptInt to with
+    | some iv, some to => some (b2s (Spec.Keepalive.argsOk iv to))
+    | _, _ => some "bad-args"
   | ["m-app-args", iv, to] =>
     match iv.toInt?, parseOptInt to with
     | some iv, some to => some (b2s (argsAccepted iv to))
